@@ -253,7 +253,11 @@ func (w *Worker) Prepare(j *Job) {
 		if strings.Contains(f, "/") {
 			os.MkdirAll(filepath.Dir(p), 0755)
 		}
-		if err := os.WriteFile(p, b, 0644); err != nil {
+		mode := os.FileMode(0644)
+		if strings.HasPrefix(f, "bin/") {
+			mode = 0755 // stand-in executables (the stub `ruby`)
+		}
+		if err := os.WriteFile(p, b, mode); err != nil {
 			infra("write %s: %v", p, err)
 		}
 		w.files[f] = true
@@ -288,6 +292,12 @@ func (w *Worker) Exec(j *Job) Result {
 		Only: j.Only, Budget: j.Budget, NsTick: j.NsTick, Payload: j.Payload}
 	if sc.Sched == "" {
 		sc.Sched = "canon"
+	}
+	if len(j.Env) > 0 {
+		sc.Env = map[string]string{}
+		for k, v := range j.Env {
+			sc.Env[k] = strings.ReplaceAll(v, "$WORKDIR", w.dir)
+		}
 	}
 	line, _ := json.Marshal(sc)
 	line = append(line, '\n')
